@@ -125,18 +125,14 @@ def negative_universe_failures(deck, options):
     '''Failures of the conversion of `deck` against the reference location on
     the same deck with |u| as universe numbers (mcnpref compares universe
     numbers literally).'''
-    import copy
     import impl
     conv = impl.convert(deckmod.render(deck), list(options))
     if not conv.ok or conv.text is None:
         return [{'point': None, 'why': f'rejected: {conv.exc}: {conv.msg[:120]}'}]
     t4 = impl.T4File(conv.text)
-    ref_deck = copy.deepcopy(deck)
-    for c in ref_deck['cells']:
-        c['u'] = abs(c['u'])
     pts = c05_sweep.sample_points(random.Random(5), 200)
     pts += [[0.5, 0.2, 0.1], [0.3, 0.1, 0.0], [-0.4, 0.3, 0.2]]
-    _, _, failures = c05_sweep.compare(ref_deck, t4, pts)
+    _, _, failures = c05_sweep.compare(deck, t4, pts)
     return failures
 
 
@@ -150,7 +146,9 @@ def sweep(res, rng, n_decks, n_points, tag):
         conv, checked, deep, failures = c05_sweep.run_deck(
             deck, rng, options, n_points)
         text = deckmod.render(deck)
-        n_univ = len({c['u'] for c in deck['cells']})
+        n_univ = len({abs(c['u']) for c in deck['cells']})
+        res.count(f'{tag}:decks-with-negative-universe-number',
+                  1 if any(c['u'] < 0 for c in deck['cells']) else 0)
         res.seen((text, tuple(options)), nontrivial=deep > 0)
         res.count(f'{tag}:universes:{min(n_univ, 6)}')
         n_empty = sum(1 for c in deck['cells'] if c['expr'][0] == '*'
@@ -204,43 +202,30 @@ def run(res, tier, seed, proofs_ok):
         'sweep: rendered decks with nested universes (partitions by BSP over '
         'planes, spheres and cylinders; FILL transformation by number / '
         'inline 3 / inline 12 / starred; TRCL-only; both; shared poses; '
-        'patently empty cells in filling universes; '
+        'patently empty cells in filling universes; filler cells declared '
+        'with U=-n; '
         'IMP=0 level-0 cells), 150+ points per deck; non-trivial = a point '
         'located below level 0')
 
-    # 1. known findings (the empty-filler defect of DESIGN 8 #7 is fixed in
-    #    /repo 3f9f4fd; the sweep generator puts empty cells in filling
-    #    universes)
+    # 1. corpus: no open finding is left for C05 (the empty-filler defect of
+    #    DESIGN 8 #7 is fixed in /repo 3f9f4fd, the negative universe number
+    #    in 4e10911; the sweep generator produces both shapes).  The minimal
+    #    decks of the second one stay as a regression corpus.
     for name, deck, options in negative_universe_witnesses():
         fails = negative_universe_failures(deck, options)
-        res.count('witness:negative_universe_number')
-        neg_cells = {c['id'] for c in deck['cells'] if c['u'] < 0}
-        # the class: a point whose reference chain passes through a cell with
-        # a negative universe number lies in no volume; anything else that
-        # goes wrong on these decks is an ordinary violation
-        in_class = [f for f in fails if f.get('kind') == 'count'
-                    and 'lies in 0 volumes' in f['why']
-                    and any(f'({cid}, None)' in f['why'] for cid in neg_cells)]
-        other = [f for f in fails if f not in in_class]
-        if other:
-            res.violation(
-                'impl-violation', f'{name}: {other[0]["why"]}',
-                {'input': {'deck': deckmod.render(deck), 'options': options,
-                           'abstract': deck, 'point': other[0]['point']},
-                 'observed': [f['why'] for f in other[:5]]},
-                found_input=True)
-        fails = in_class
+        res.count('corpus:negative_universe_number')
+        res.seen((deckmod.render(deck), tuple(options)), nontrivial=True)
         if fails:
             res.violation(
                 'impl-violation',
-                f'{name}: {len(fails)} sample points of a filled cell lie in '
-                f'no volume / the wrong volume: {fails[0]["why"]}',
+                f'{name}: {len(fails)} sample points misplaced: '
+                f'{fails[0]["why"]}',
                 {'input': {'deck': deckmod.render(deck), 'options': options,
                            'abstract': deck, 'point': fails[0]['point']},
                  'expected': 'mcnpref.Reference.locate on the deck with '
                              '|u| as universe numbers',
                  'observed': [f['why'] for f in fails[:5]]},
-                cls='negative_universe_number', found_input=True)
+                found_input=True)
 
     # 2. tie
     cases, meta = [], []
@@ -341,9 +326,7 @@ def replay(path):
             t4 = impl.T4File(conv.text)
             if any(cell['u'] < 0 for cell in deck['cells']):
                 print('negative universe numbers: the reference location '
-                      'uses |u| (MCNP: same universe)')
-                for cell in deck['cells']:
-                    cell['u'] = abs(cell['u'])
+                      'uses |u| (MCNP: same universe; c05_sweep.compare)')
             pts = [inp['point']] if inp.get('point') else []
             pts += c05_sweep.sample_points(random.Random(0), 300)
             checked, deep, failures = c05_sweep.compare(deck, t4, pts)
